@@ -73,7 +73,23 @@ def pyule_norm(inp):
     return True, "pyule forwards its norm; the default is 'biased'"
 
 
+def ls_autocorr(inp):
+    """least squares on corrmtx(x, p, 'autocorrelation') gives the Yule-Walker (biased) coefficients"""
+    import spectrum
+    cx = bool(inp.get("complex"))
+    for (N, p, seed) in ((int(inp.get("N", 12)), int(inp.get("p", 3)), 1), (30, 6, 2), (9, 2, 3)):
+        if p >= N:
+            continue
+        x = _x(N, cx, seed)
+        C = np.asarray(spectrum.corrmtx(x, p, "autocorrelation"))
+        ls = np.linalg.lstsq(C[:, 1:], -C[:, 0], rcond=None)[0]
+        a = np.asarray(spectrum.aryule(x, p, "biased")[0])
+        if not close(ls, a, 1e-8):
+            return False, "least squares on the autocorrelation matrix differs from aryule (N=%d, p=%d): max|diff| %.3g" % (N, p, float(np.max(np.abs(ls - a))))
+    return True, "least squares on the 'autocorrelation' data matrix = Yule-Walker coefficients"
+
+
 NATIVE = dict(_N)
-NATIVE.update({"aryule": aryule, "gram": gram, "lpc": lpc, "pyule_norm": pyule_norm})
+NATIVE.update({"aryule": aryule, "gram": gram, "lpc": lpc, "pyule_norm": pyule_norm, "ls_autocorr": ls_autocorr})
 SEARCH = dict(_S)
-SEARCH.update({k: (lambda rng, h: dict(h)) for k in ("aryule", "gram", "lpc", "pyule_norm")})
+SEARCH.update({k: (lambda rng, h: dict(h)) for k in ("aryule", "gram", "lpc", "pyule_norm", "ls_autocorr")})
